@@ -378,6 +378,24 @@ func (e *Engine) verifyFunc(fn *ssa.Function, fc *FuncContract, sweepProps []str
 		for _, c := range fc.Requires {
 			vc.assume(st, env.clause(c))
 		}
+		if w := fc.Flags["wired"]; w != "" {
+			depth := 1
+			fmt.Sscanf(w, "%d", &depth)
+			sig := fn.Signature
+			n := 0
+			if sig.Recv() != nil {
+				vc.assumeWired(st, args[0], sig.Recv().Type(), depth, map[string]bool{})
+				n = 1
+			}
+			// interface- and pointer-typed parameters (conn) are non-nil as well
+			for i := 0; i < sig.Params().Len(); i++ {
+				pt := sig.Params().At(i).Type()
+				if _, ok := pt.Underlying().(*types.Interface); ok {
+					vc.assume(st, mkNeq(scalarOf(args[n+i], pt), tNull))
+				}
+			}
+			vc.note("wiring assumption: pointer, interface, map, chan and func fields reachable from the receiver of " + fn.String() + " (depth " + w + ") and interface parameters are non-nil")
+		}
 	}
 	vc.entry = st.clone()
 	// vacuity: preconditions satisfiable
@@ -400,6 +418,56 @@ func (e *Engine) verifyFunc(fn *ssa.Function, fc *FuncContract, sweepProps []str
 		}
 	}
 	return vc
+}
+
+// assumeWired: v (of type t) is non-nil and so are the reference-typed fields reachable from it (depth levels
+// of pointer hops). Structural "wiring" assumption for service receivers, listed in the ledger.
+func (vc *VC) assumeWired(st *State, v Val, t types.Type, depth int, seen map[string]bool) {
+	switch u := t.Underlying().(type) {
+	case *types.Pointer:
+		r := scalarOf(v, t)
+		vc.assume(st, mkNeq(r, tNull))
+		if depth <= 0 {
+			return
+		}
+		et := u.Elem()
+		if _, ok := isStruct(et); !ok {
+			return
+		}
+		if n, ok := et.(*types.Named); ok && n.Obj().Pkg() != nil && !strings.HasPrefix(n.Obj().Pkg().Path(), vc.eng.modPath) {
+			return // foreign struct: contents not inspected
+		}
+		k := typeKey(et)
+		if seen[k] {
+			return
+		}
+		seen[k] = true
+		vc.wiredFields(st, asPtr(v, et), et, depth-1, seen)
+		delete(seen, k)
+	case *types.Interface, *types.Map, *types.Chan, *types.Signature:
+		vc.assume(st, mkNeq(scalarOf(v, t), tNull))
+	}
+}
+
+// wiredFields loads only the reference-typed fields of the struct at p (nested struct values included).
+func (vc *VC) wiredFields(st *State, p *VPtr, t types.Type, depth int, seen map[string]bool) {
+	u, ok := isStruct(t)
+	if !ok {
+		return
+	}
+	if n, ok := t.(*types.Named); ok && n.Obj().Pkg() != nil && !strings.HasPrefix(n.Obj().Pkg().Path(), vc.eng.modPath) {
+		return
+	}
+	for i := 0; i < u.NumFields(); i++ {
+		ft := u.Field(i).Type()
+		switch ft.Underlying().(type) {
+		case *types.Struct:
+			vc.wiredFields(st, p.extend(i), ft, depth, seen)
+		case *types.Pointer, *types.Interface, *types.Map, *types.Chan, *types.Signature:
+			fv := vc.loadPtr(st, p.extend(i), ft)
+			vc.assumeWired(st, fv, ft, depth, seen)
+		}
+	}
 }
 
 func (vc *VC) frameObligations(fin *State, ts []modTarget) {
